@@ -1198,6 +1198,10 @@ func unmarshalDecimal(info TypeInfo, data []byte, value interface{}) error {
 	case Unmarshaler:
 		return v.UnmarshalCQL(info, data)
 	case *inf.Dec:
+		if data == nil {
+			*v = inf.Dec{}
+			return nil
+		}
 		if len(data) < 4 {
 			return unmarshalErrorf("inf.Dec needs at least 4 bytes, while value has only %d", len(data))
 		}
@@ -1941,6 +1945,10 @@ func unmarshalTimeUUID(info TypeInfo, data []byte, value interface{}) error {
 	case Unmarshaler:
 		return v.UnmarshalCQL(info, data)
 	case *time.Time:
+		if data == nil {
+			*v = time.Time{}
+			return nil
+		}
 		id, err := UUIDFromBytes(data)
 		if err != nil {
 			return err
@@ -1991,6 +1999,10 @@ func unmarshalInet(info TypeInfo, data []byte, value interface{}) error {
 	case Unmarshaler:
 		return v.UnmarshalCQL(info, data)
 	case *net.IP:
+		if data == nil {
+			*v = nil
+			return nil
+		}
 		if x := len(data); !(x == 4 || x == 16) {
 			return unmarshalErrorf("cannot unmarshal %s into %T: invalid sized IP: got %d bytes not 4 or 16", info, value, x)
 		}
